@@ -55,6 +55,8 @@ CHECKS["C19"] = dict(cat="model_checking", ref="4 C19", engine="po-smt",
         "partial-order encoding (one event per executed source line, integer clocks, reads-from for counter/flag/GC state/lock, arbitrary executed "
         "prefix per thread, symbolic initial GC state); Z3 decides for every listed tuple of per-thread call words whether any schedule violates "
         "'GC disabled while a call is in progress', 'counter never negative / underflow branch never taken', 'state restored when all returned'. "
+        "Thread-local variables of the guard functions are encoded per thread. Besides the balanced words, three programs run one unbalanced exit to "
+        "completion before any other thread starts (the count must not go negative). "
         "Counterexamples are replayed on the real functions with real threads under a line-level scheduler. Bounded: <=3 threads, nesting <=2.",
    technique="SMT (Z3) partial-order bounded model checking of an encoding generated from the functions' source; replay on the real code",
    note="Trusted: Z3; the AST translator (guarded by a reachability twin and two must-fail source mutants every run); documented semantics of "
@@ -180,7 +182,7 @@ CHECKS["C24"] = dict(cat="translation_validation", ref="4 C24 / 11.10", engine="
 CHECKS["C23"] = dict(cat="other", ref="4 C23 / 11.11", engine="pysym",
    text="DiscreteStridedIntervalSet (2 members: one with symbolic stride/bounds, one from a concrete pool) and ValueSet (1-2 regions from a pool of 3 names: "
         "one symbolic interval, one concrete) at width 2 (quick) / 2-3 (thorough): every operator of both classes (arithmetic, bitwise, shifts, reversed "
-        "operators, concat, extract, extensions, comparisons, union / intersection / widen, identical) and the queries (eval, min, max, cardinality, "
+        "operators, concat, extract, extensions, comparisons, union / intersection / widen, identical) and the queries (eval of all members and eval(2) / eval(3), min, max, cardinality, "
         "collapse). Per explored path Z3 decides per-member / per-region containment of every concrete result and agreement of the queries with the "
         "member set, for all interval parameters and members.",
    technique="symbolic execution of the real Python code on int shadows; Z3 containment / exactness query per path",
@@ -233,7 +235,9 @@ for _p, _cat, _t in (
     ("C18", "model_checking", "A pickle round trip inserted at every position of six base histories on every frontend class; later answers must meet the "
                               "same specifications; two solvers in one pickle; for approximate answers of SolverHybrid the never-pickled original runs on as a twin. "
                               "Native legs: four pools of expressions in-process (identity) and across interpreter processes with different PYTHONHASHSEEDs "
-                              "(structural equality, equivalence), six solver scenarios pickled in one process and queried in another."),
+                              "(structural equality, equivalence, and the value under a fixed assignment computed by the library's own concrete evaluation in both processes), "
+                              "six solver scenarios pickled in one process and queried in another. A solver made unsatisfiable through the pairwise shortcut "
+                              "(concrete contradicting equalities) is pickled at every position and asked for its core."),
 ):
     CHECKS[_p] = dict(cat=_cat, ref=f"4 {_p} / 11.12", engine="pysym", text=_t,
                       technique="symbolic execution of the real frontend code on a symbolic oracle backend; per path Z3 decides each answer's specification",
